@@ -57,17 +57,19 @@ CHECKS = {
         "level": "exploration",
         "tests": fam("C04", (2000, 384000), (20, 3840), (8, 1536), mid=(1000, 192000), extra=({"name": "TestC04Big", "quick": 4, "thorough": 192, "min_per_shard": 4},
                              {"name": "TestC04Aligned", "quick": 150, "thorough": 14400, "min_per_shard": 20},
-                             {"name": "TestC04Counts", "quick": 30, "thorough": 2880, "min_per_shard": 8})),
+                             {"name": "TestC04Counts", "quick": 30, "thorough": 2880, "min_per_shard": 8},
+                             {"name": "TestC04Giant", "quick": 2, "thorough": 32, "min_per_shard": 2, "max_shards": 4})),
         "assumptions": COMMON_ASSUMPTIONS,
     },
     "C06": {
         "level": "exploration",
-        "tests": fam("C06", (3000, 576000), (300, 57600), extra=({"name": "TestC06ManyFields", "quick": 80, "thorough": 7680, "min_per_shard": 20},)),
+        "tests": fam("C06", (3000, 576000), (300, 57600), extra=({"name": "TestC06ManyFields", "quick": 80, "thorough": 7680, "min_per_shard": 20},
+                                                                       {"name": "TestC06Giant", "quick": 2, "thorough": 32, "min_per_shard": 2, "max_shards": 4})),
         "assumptions": COMMON_ASSUMPTIONS,
     },
     "C05": {
         "level": "exploration",
-        "tests": [{"name": "TestC05Small", "quick": 8000, "thorough": 1920000}, {"name": "TestC05Wide", "quick": 300, "thorough": 72000}, {"name": "TestC05Huge", "quick": 12, "thorough": 960, "min_per_shard": 6},
+        "tests": [{"name": "TestC05Small", "quick": 8000, "thorough": 1920000}, {"name": "TestC05Wide", "quick": 300, "thorough": 72000}, {"name": "TestC05Huge", "quick": 12, "thorough": 960, "min_per_shard": 6}, {"name": "TestC05Sparse", "quick": 80, "thorough": 5760, "min_per_shard": 6},
                   {"name": "TestC05Regress", "quick": 0}, {"name": "TestC05RegressAdvanceBeyond32", "quick": 0}],
         "assumptions": COMMON_ASSUMPTIONS + ["Advance targets are > the last returned document and non-decreasing (API contract), any uint64 value including targets >= 2^32; ReplaceActual only before the first step, with a subset of ActualBitmap(), on a non-1-hit iterator"],
     },
@@ -79,7 +81,8 @@ CHECKS = {
     "C11": {
         "level": "exploration",
         "tests": fam("C11", (3000, 576000), (60, 11520), wide=(8, 768), mid=(1000, 192000), extra=({"name": "TestC11Big", "quick": 4, "thorough": 192, "min_per_shard": 4},
-                                                                                                   {"name": "TestC11Aligned", "quick": 100, "thorough": 9600, "min_per_shard": 20})),
+                                                                                                   {"name": "TestC11Aligned", "quick": 100, "thorough": 9600, "min_per_shard": 20},
+                                                                                                   {"name": "TestC11Giant", "quick": 2, "thorough": 32, "min_per_shard": 2, "max_shards": 4})),
         "assumptions": COMMON_ASSUMPTIONS + ["the footer layout is taken from README.md"],
     },
     "C13": {
@@ -109,13 +112,14 @@ CHECKS = {
     "C07": {
         "level": "exploration",
         "tests": [{"name": "TestC07Small", "quick": 3000, "thorough": 576000}, {"name": "TestC07Wide", "quick": 400, "thorough": 28800}, {"name": "TestC07Mid", "quick": 1000, "thorough": 192000}, {"name": "TestC07Huge", "quick": 6, "thorough": 480, "min_per_shard": 3},
-                  {"name": "TestC07Gaps", "quick": 150, "thorough": 14400, "min_per_shard": 10}],
+                  {"name": "TestC07Gaps", "quick": 150, "thorough": 14400, "min_per_shard": 10}, {"name": "TestC07HugeChunk", "quick": 0}],
         "assumptions": COMMON_ASSUMPTIONS + ["document numbers passed to VisitDocumentValues are < Count()"],
     },
     "C12": {
         "level": "fault_enumeration",
         "tests": [{"name": "TestC12Small", "quick": 40, "thorough": 2560, "min_per_shard": 20}, {"name": "TestC12Blocks", "quick": 3, "thorough": 192, "min_per_shard": 3},
-                  {"name": "TestC12Wide", "quick": 12, "thorough": 480, "min_per_shard": 4, "max_shards": 8}, {"name": "TestC12WideB", "quick": 12, "thorough": 480, "min_per_shard": 4, "max_shards": 8}],
+                  {"name": "TestC12Wide", "quick": 12, "thorough": 480, "min_per_shard": 4, "max_shards": 8}, {"name": "TestC12WideB", "quick": 12, "thorough": 480, "min_per_shard": 4, "max_shards": 8},
+                  {"name": "TestC12Giant", "quick": 2, "thorough": 32, "min_per_shard": 2, "max_shards": 4}],
         "assumptions": ["the injected writer is a conforming io.Writer (returns n < len(p) together with a non-nil error, fails forever afterwards)",
                         "the close channel is closed from inside the destination writer's Write, i.e. at byte granularity of what reaches the writer (coarser than the merger's own polls for large buffers)",
                         COMMON_ASSUMPTIONS[0]],
@@ -123,7 +127,8 @@ CHECKS = {
     "C14": {
         "level": "exploration",
         "tests": [{"name": "TestC14", "quick": 600, "thorough": 19200}, {"name": "TestC14", "quick": None, "thorough": 3200, "race": True, "max_shards": 8},
-                  {"name": "TestC14Long", "quick": 16, "thorough": 960, "min_per_shard": 8}],
+                  {"name": "TestC14Long", "quick": 16, "thorough": 960, "min_per_shard": 8},
+                  {"name": "TestC14Vocab64k", "quick": 0}, {"name": "TestC14Vocab512k", "quick": 0}],
         "assumptions": [COMMON_ASSUMPTIONS[0], "whether a build really started from a recycled pool object is sampled through the verif hook just before the build (sync.Pool is per-P, so this is evidence, not control)",
                         "concurrent builders are scheduled by the Go runtime; interleavings are sampled"],
     },
@@ -163,7 +168,10 @@ CHECKS = {
                   {"name": "TestC10Blocks", "quick": 40, "thorough": 7680, "min_per_shard": 20},
                   {"name": "TestC10Wide", "quick": 15, "thorough": 2880, "min_per_shard": 8},
                   {"name": "TestC10Big", "quick": 4, "thorough": 192, "min_per_shard": 4},
-                  {"name": "TestC10Sparse", "quick": 12, "thorough": 960, "min_per_shard": 6}],
+                  {"name": "TestC10Sparse", "quick": 12, "thorough": 960, "min_per_shard": 6},
+                  {"name": "TestC10ManyFields", "quick": 60, "thorough": 5760, "min_per_shard": 10},
+                  {"name": "TestC10Counts", "quick": 30, "thorough": 2880, "min_per_shard": 8},
+                  {"name": "TestC10Gaps", "quick": 20, "thorough": 1920, "min_per_shard": 5}],
         "assumptions": ["the reference is harness/refice: the pinned ice sources at commit 76983be with only the package clause renamed (plus one added export file), compiled into the harness",
                         "facets where the reference itself is defective are excluded by construction and counted in the labels (excluded:*)",
                         "a format change confined to a structure none of the three scenario families produces would pass",
